@@ -472,3 +472,13 @@ Proof.
   exact H.
 Qed.
 
+
+(* ---------------------------------------------------------------- the function the correspondence check evaluates *)
+Definition spec_run_case (c : case) : list (list Z) :=
+  match c with
+  | CLegacy cfg ops => lspec_run cfg [] ops
+  | CExp cfg ops => espec_run cfg [] ops
+  end.
+
+Theorem run_case_refines c : run_case c = spec_run_case c.
+Proof. destruct c as [cfg ops|cfg ops]; cbn [run_case spec_run_case]; [apply legacy_refines|apply exp_refines]. Qed.
